@@ -4,7 +4,8 @@ Engine E2, symbolic-vs-concrete differential.  Two program families:
 
  (i)  irgen programs: straight-line and branching block sequences over the fake 32-bit architecture
       (<= 3 blocks, <= 2 AssignBlocks per block, one-block programs of <= 3 (thorough 4) over a small copy alphabet; registers, parallel swap, memory through the two symbolic
-      bases `sp` and `a`, 8-bit partial store, read-modify-write of a cell by a non byte-aligned shift / bit field, word-wise memory copy read back misaligned; a self loop / every 2-block loop shape executed for a bounded number of blocks);
+      bases `sp` and `a`, 8-bit partial store, read-modify-write of a cell by a non byte-aligned shift / bit field, word-wise memory copy read back misaligned, a pointer register copied then advanced / swapped and memory read through both
+      registers inside one AssignBlock; a self loop / every 2-block loop shape executed for a bounded number of blocks);
  (ii) the IR of every instruction of the curated vectors (test/arch/<arch>/arch.py, harvested with ast by mc/insngen)
       plus a few supplementary x86 read-modify-write forms (EXTRA_VECTORS: shifts of a memory operand by an immediate),
       lifted one instruction at a time with Machine(target).lifter at offset 0x1000.
@@ -65,6 +66,9 @@ ALPHA_5 = ["swap", "@[sp+4]=a", "b=@[a]", "sp=sp-4", "a=a+1"]
 ALPHA_5R = ["swap", "@[sp+4]=a", "b=@[a]", "sp=sp-4", "@[sp+4]=@[sp+4]>>4"]
 ALPHA_4 = ["swap", "@[sp+4]=a", "b=@[sp+4]", "sp=sp-4"]
 # word-wise copy a -> sp, an untouched / overwritten neighbour, misaligned reads starting inside one copied word
+# a pointer register copied (c=a) then advanced, or two pointer registers swapped, then memory read through both in one
+# AssignBlock / one expression: the resolved form of one read is textually the unevaluated form of the other
+ALPHA_PTR = ["c=a", "a=a+4", "swap", "r=@[a]+@[c]", "r=@[a],b=@[c]", "r=@[c]", "r=@[a]+@[b]", "r=@[b]-@[a]"]
 ALPHA_COPY = ["@[sp+4]=@[a]", "@[sp+8]=@[a+4]", "@8[sp+5]=a", "b=@[sp+5]", "b=@[sp+6]", "r=@16[sp+7]"]
 CONDS = ["zf", "@[sp+4]", "a==b"]
 
@@ -74,7 +78,9 @@ PLAN_IRGEN = {
               (2, 1, ALPHA_14, "dag", CONDS[:1], 3),
               (2, 2, ALPHA_5, "dag", CONDS[:1], 3),
               (3, 1, ALPHA_5R, "dag", CONDS, 3),
-              (1, 3, ALPHA_COPY, "dag", CONDS[:1], 1)],
+              (1, 3, ALPHA_COPY, "dag", CONDS[:1], 1),
+              (1, 3, ALPHA_PTR, "dag", CONDS[:1], 1),
+              (2, 1, ALPHA_PTR, "dag", CONDS[:1], 2)],
     "thorough": [(1, 2, ALPHA_FULL, "all", CONDS[:1], 3),
                  (1, 3, ALPHA_9, "all", CONDS[:1], 2),
                  (2, 1, ALPHA_FULL, "dag", CONDS[:1], 3),
@@ -83,7 +89,10 @@ PLAN_IRGEN = {
                  (3, 1, ALPHA_9, "dag", CONDS, 3),
                  (3, 2, ALPHA_4, "dag", CONDS[:1], 3),
                  (1, 4, ALPHA_COPY, "dag", CONDS[:1], 1),
-                 (3, 1, ALPHA_COPY, "dag", CONDS[:1], 3)],
+                 (3, 1, ALPHA_COPY, "dag", CONDS[:1], 3),
+                 (1, 4, ALPHA_PTR, "dag", CONDS[:1], 1),
+                 (3, 1, ALPHA_PTR, "dag", CONDS[:1], 3),
+                 (2, 2, ALPHA_PTR, "dag", CONDS[:1], 2)],
 }
 PLAN_LIFTED = {
     "quick": ["x86_16", "x86_32", "x86_64", "arml", "armtl", "aarch64l", "mips32l", "ppc32b", "msp430", "mepl"],
